@@ -55,7 +55,44 @@ static DocOpts opts() {
 
 static const char *kName = "verify";
 
+// trailing-bytes documents: a small well-formed base followed by `t` bytes of one of six fills
+static const Bytes kTrailBases[] = {{0x40, 0x41}, {0x42, 0x43}, {0x40, 0x14, 0x01, 'a', 0x10, 0x01, 0x41}, {0x42, 0x10, 0x01, 0x42, 0x43, 0x40, 0x41, 0x43}};
+static Bytes trailing_doc(unsigned bi, size_t t, unsigned fill) {
+    const Bytes &base = kTrailBases[bi % 4];
+    bool arr = base[0] == 0x42;
+    Bytes doc = base;
+    uint32_t x = (uint32_t)t * 2654435761u + 12345u;
+    for (size_t i = 0; i < t; i++) {
+        uint8_t c = 0;
+        switch (fill % 6) {
+        case 0: c = 0; break;
+        case 1: c = 0x41; break;
+        case 2: c = 0x43; break;
+        case 3: c = base[i % base.size()]; break;
+        default: x = x * 1664525u + 1013904223u; c = (uint8_t)(x >> 24); break;
+        }
+        doc.push_back(c);
+    }
+    if (t && fill % 6 >= 4) doc.back() = ((fill % 6 == 4) == arr) ? 0x43 : 0x41;
+    return doc;
+}
+// literal case: AD [base][fill][root][depth selector][t: 3 bytes little endian]
+static bool trailing_case(Src &s, FILE *out) {
+    if (!(s.left() >= 8 && s.p[s.i] == 0xAD)) return false;
+    s.u8();
+    unsigned bi = s.u8(), fill = s.u8(), arr = s.u8() & 1, d = s.u8() % 5;
+    size_t t = s.u8();
+    t |= (size_t)s.u8() << 8;
+    t |= (size_t)s.u8() << 16;
+    if (t > 70000) t = 70000;
+    Bytes doc = trailing_doc(bi, t, fill);
+    if (out) fprintf(out, "trailing-bytes case: base %s + %zu bytes (fill %u), root=%s max_depth=%u\n", ref::hex(kTrailBases[bi % 4].data(), kTrailBases[bi % 4].size(), 16).c_str(), t, fill % 6, arr ? "array" : "object", kDepths[d]);
+    else verdict(doc.data(), doc.size(), arr, kDepths[d], false);
+    return true;
+}
+
 static void run_case(Src &s) {
+    if (trailing_case(s, nullptr)) return;
     DocCase c = decode_doc(s, opts());
     for (auto &m : c.muts) stats().label(m);
     stats().label(fmt("mode:%u", c.mode));
@@ -65,6 +102,7 @@ static void run_case(Src &s) {
 }
 
 static void describe_case(Src &s, FILE *out) {
+    if (trailing_case(s, out)) return;
     DocCase c = decode_doc(s, opts());
     fprintf(out, "%s\n", describe_doc(c).c_str());
     ref::Rec rec = ref::recognise(c.doc.data(), c.doc.size(), c.array_root, c.depth, false);
@@ -105,7 +143,7 @@ static int enumerate(int shard, int nshards, const char *tier) {
     std::vector<Bytes> a = alphabet();
     const size_t A = a.size();
     uint64_t seqno = 0;
-    Bytes doc;
+    Bytes doc, literal;
     try {
         for (unsigned len = 0; len <= L; len++) {
             uint64_t total = 1;
@@ -129,9 +167,34 @@ static int enumerate(int shard, int nshards, const char *tier) {
                 }
             }
         }
+        // trailing-bytes sweep: a well-formed document followed by T more bytes is never well-formed. T and the total size at
+        // every width boundary (2^7, 2^8, 2^15, 2^16 -1/0/+1, 70000), the tail filled with zeros, END bytes of either kind,
+        // a second copy of the document, or pseudo-random bytes ending in the root's END byte; the bare document must pass.
+        if (shard == 0) {
+            std::vector<size_t> tails;
+            for (size_t b : {(size_t)128, (size_t)256, (size_t)32768, (size_t)65536})
+                for (int d = -9; d <= 2; d++) tails.push_back(b + (size_t)d);
+            for (size_t t : {(size_t)1, (size_t)2, (size_t)3, (size_t)4, (size_t)1000, (size_t)69990, (size_t)70000}) tails.push_back(t);
+            for (unsigned bi = 0; bi < 4; bi++) {
+                for (size_t t : tails)
+                    for (unsigned fill = 0; fill < 6; fill++) {
+                        for (unsigned a = 0; a < 2; a++)
+                            for (unsigned d = 0; d < 5; d++) {
+                                uint8_t cs[8] = {0xAD, (uint8_t)bi, (uint8_t)fill, (uint8_t)a, (uint8_t)d, (uint8_t)(t & 0xff), (uint8_t)((t >> 8) & 0xff), (uint8_t)(t >> 16)};
+                                literal.assign(cs, cs + 8);
+                                Src ls(cs, 8);
+                                run_case(ls);
+                                literal.clear();
+                            }
+                        stats().count("trailing_sweep_docs");
+                    }
+                verdict(kTrailBases[bi].data(), kTrailBases[bi].size(), kTrailBases[bi][0] == 0x42, 10, true);
+            }
+        }
     } catch (const Failure &f) {
         // express the failing verdict as a raw-mode case so that it can be replayed / shrunk like any other
         // (the failing (root, depth) pair is recovered by trying all ten on replay: store the doc only)
+        if (!literal.empty()) { vh_save_fail_case(literal.data(), literal.size()); throw f; }
         if (const char *path = getenv("VH_FAIL")) {
             // find the failing configuration again
             for (int arr = 0; arr < 2; arr++)
